@@ -37,9 +37,16 @@ def scenarios(tier, seed):
         return [{"kind": "schedules", "seed": seed * 1000 + 1900, "nlevels": 2, "nfiles": 4, "layout": "shuffled", "n0": [16, 16, 8],
                  "nshuffles": 2, "workers": [1, 2]},
                 {"kind": "schedules", "seed": seed * 1000 + 1901, "nlevels": 3, "nfiles": 3, "layout": "roundrobin", "n0": [16, 16, 8],
-                 "nshuffles": 3, "workers": []}]
+                 "nshuffles": 3, "workers": []},
+                # boxes of different sizes in one level (larger boxes listed after smaller ones): an ordering of the tasks by size
+                # is not the identity
+                {"kind": "schedules", "seed": seed * 1000 + 1902, "nfiles": 2, "layout": "shuffled", "n0": [32, 16, 16],
+                 "levels": [[[[0, 0, 0], [7, 15, 15]], [[8, 0, 0], [23, 15, 15]], [[24, 0, 0], [31, 15, 15]]],
+                            [[[0, 0, 0], [15, 15, 31]], [[16, 0, 0], [47, 31, 31]], [[0, 16, 0], [15, 31, 31]]]],
+                 "nshuffles": 2, "workers": []}]
     return [{"kind": "schedules", "seed": seed * 1000 + 1900 + i, "nlevels": 1 + i % 3, "nfiles": 2 + i % 3, "layout": ["shuffled", "roundrobin"][i % 2],
-             "n0": [16, 16, 8], "nshuffles": 6, "workers": [1, 2, 16] if i < 2 else []} for i in range(5)]
+             "n0": [16, 16, 8] if i % 2 == 0 else [32, 16, 16], "box_sizes": None if i % 2 == 0 else [8, 16],
+             "nshuffles": 6, "workers": [1, 2, 16] if i < 2 else []} for i in range(5)]
 
 
 def run_scenario(p, wd):
